@@ -2,13 +2,31 @@
   C11 — Curation statistics count the real cuts, breaks and joins.
 
   An adjacency is the UNORDERED pair of the two contig ends that face each other across a junction; a contig end is
-  `(name, coordinate, isTail)` (`End`, in `Proofs/C11Order.lean`).  `junction_tuple` encodes adjacencies injectively
-  (theorems 1, 2), a scaffold and its reverse have the same junction set (3), strand 0 is rejected (4), and
-  `make_stats` reports `|input \ output|` breaks and `|output \ input|` joins of those sets (5), which is the number of
-  adjacencies lost / gained, and does not change when whole scaffolds are reversed in the input or the output.
+  `End = (name, coordinate, isTail)` (`Proofs/C11Order.lean`: `leftFacing`, `rightFacing`, `facingEnds`, `SameAdj`,
+  `encodeAdj`).
+
+  PROVED, all at full strength (no `_partial` theorem in this file):
+    0  `str_lt_*`, `end_le_*`            `strLt` is a strict total order, `endLe` a total order on (name, coordinate)
+    1  `junction_tuple_reverse(_any)`    `junctionTuple b.reverse a.reverse = junctionTuple a b`, for ALL strand values
+    2  `junction_tuple_spec`             for strands ±1 the tuple is `encodeAdj (facingEnds a b)`
+       `junction_tuple_eq_iff`           same tuple ⇔ same unordered pair of facing ends (BOTH directions)
+    3  `junction_set_reverse`            a scaffold and its reverse have the same junction set (membership, `Perm`,
+       `junction_set_reverse_ok/_error`  both duplicate-free); without strand hypotheses: same set or same error
+    4  `strand0_rejected`, `strand_rejected`   a strand ∉ {1,−1} next to another fragment ⇒ `ValueError`
+    5  `make_stats_counts`               breaks = |sDiff inputSet outputSet|, joins = |sDiff outputSet inputSet|, the sets
+                                         being duplicate-free with membership = "tuple of two consecutive fragments of an
+                                         input scaffold / of a scaffold of some output assembly"
+       `make_stats_breaks_joins`         the same as cardinalities of the two set differences
+       `make_stats_counts_adjacencies`   the same in terms of unordered contig-end adjacencies (the property as worded)
+       `make_stats_reversal_invariant`   reversing (and reordering) whole scaffolds in the input and/or the outputs keeps
+                                         `make_stats` succeeding and changes neither count
+    6  `cut_fragments_counter`, `cut_remaining_counter`   the cut counter grows by (pieces − 1) per cut contig
+  NOT covered (not in this task's goal list): the end-to-end equation cuts = #output fragments − #input contigs over
+  the whole of `remap` (needs C01 end to end), and the haplotig-removal count.
   Only property theorems + non-vacuity examples live here; helper lemmas are in `Proofs/C11*.lean`.
 -/
 import AgpTpf.Proofs.C11Extra
+import AgpTpf.Proofs.C11Cuts
 namespace AgpTpf.C11
 open AgpTpf
 
@@ -297,5 +315,39 @@ example : ∃ st, makeStats inEx outEx 0 = .ok st ∧ st.breaks = 1 ∧ st.joins
 example : RevEquiv inEx (inEx.map Scaffold.reverse) := by
   unfold RevEquiv RevRel inEx
   simp
+
+/-! ## 6. the cut counter
+
+  `make_stats` passes the counter through (`st.cuts = cuts` above, and `assembliesFused` calls it with `b.cuts`).
+  The only place that changes the counter is `cut_fragments`: +(pieces − 1) per cut contig, one piece per Pretext
+  scaffold holding the contig; `cut_remaining_fragments` sums this over the multiply-found contigs.
+  NOT proved here: the end-to-end equation "cuts = number of output fragments − number of input contigs" over the whole
+  of `remap` (it needs the conservation theorem C01 end to end: every input contig not cut appears as exactly one
+  output fragment, every cut one as exactly its pieces). -/
+
+theorem cut_fragments_counter (b b' : Build) (fnd : Found) (h : cutFragments b fnd = .ok b') :
+    b'.cuts = b.cuts + ((fnd.scaffolds.length : Int) - 1) ∧ b'.found = b.found :=
+  cutFragments_cuts b b' fnd h
+
+theorem cut_remaining_counter (b b' : Build) (h : cutRemaining b = .ok b') :
+    b'.cuts = b.cuts + sumInts (b.multi.map (cutsOfKey b.found)) :=
+  cutRemaining_cuts b b' h
+
+/-- contig `c` 1..100, found in two Pretext scaffolds (baits 1..40 and 41..100): one cut -/
+def tC : Fragment := { oid := 7, name := ['c'], start := 1, stop := 100, strand := 1 }
+def bEx : Build :=
+  { namer := { autosomePrefix := [] }, nextOid := 9, joinGap := none, err := 0,
+    store := [{ o := { bait := { name := ['s'], start := 1, stop := 40, strand := 1 }, start := 1, stop := 100,
+                       rows := [.frag tC] } },
+              { o := { bait := { name := ['s'], start := 41, stop := 100, strand := 1 }, start := 1, stop := 100,
+                       rows := [.frag tC] } }],
+    found := [(tC.keyTuple, { fragment := tC, scaffolds := [0, 1] })],
+    multi := [tC.keyTuple] }
+
+example : (cutRemaining bEx).map (fun b' => (b'.cuts, b'.store.map (fun r => r.o.rows))) =
+    .ok (1, [[.frag { oid := 9, name := ['c'], start := 1, stop := 40, strand := 1, tags := [['C', 'u', 't']] }],
+             [.frag { oid := 10, name := ['c'], start := 41, stop := 100, strand := 1,
+                      tags := [['C', 'u', 't']] }]]) := by
+  decide +kernel
 
 end AgpTpf.C11
